@@ -343,7 +343,49 @@ def rule_recreated_node_starts_clean(ctx):
     ctx.check(len(dels) == 1, da.fq, "del_all_sources deletes every edge into the node", f"{len(dels)} matching DELETE", "DELETE FROM dependency WHERE sink = ?")
 
 
+def rule_hash_of_what_ran(ctx):
+    """R-C01-14: the step hash recorded after a command is made of the shell flag and the overrides the command was started
+    with; a step whose declaration changed meanwhile is checked again.
+
+    A running step can be declared again (full recycle) with another shell flag or other env_overrides.  after_recycle
+    stores the new values and cannot re-pend a RUNNING step.  If the hash after the command is computed from the stored
+    values, the step is SUCCEEDED for a declaration that never ran, and every later build skips it.
+    """
+    rc = ctx.prog.func("executor.Executor._run_command")
+    sets = {}
+    for a in ast.walk(rc.node):
+        if isinstance(a, ast.Assign) and len(a.targets) == 1 and isinstance(a.targets[0], ast.Attribute) and isinstance(a.targets[0].value, ast.Name) and a.targets[0].value.id == "run":
+            sets[a.targets[0].attr] = ast.unparse(a.value)
+    shell_attr = [k for k, v in sets.items() if v == "shell"]
+    env_attr = [k for k, v in sets.items() if "env_overrides" in v and k not in shell_attr]
+    ctx.check(bool(shell_attr) and bool(env_attr), rc.fq, "the shell flag and the overrides handed to the command are kept on the run", f"run attributes set from them: {sets}", f"run.{(shell_attr or ['?'])[0]}, run.{(env_attr or ['?'])[0]}", where=ctx.where_of(rc))
+    if not (shell_attr and env_attr):
+        return
+    sa, ea = shell_attr[0], env_attr[0]
+    launch = [c for c in calls_in(rc.node) if callee_name(c) == "launch_command"]
+    ok = bool(launch) and any(k.arg == "shell" and ast.unparse(k.value) == "shell" for k in launch[0].keywords)
+    ctx.check(ok, rc.fq, "the command is launched with the very values that are kept", "launch_command gets another shell flag than the one recorded", "shell=shell")
+    cf = ctx.prog.func("executor.Executor._compute_full_step_hash")
+    fi_call = [c for c in calls_in(cf.node) if callee_name(c) == "from_inp"]
+    if not fi_call:
+        raise AnalysisError("_compute_full_step_hash: StepHash.from_inp call not found")
+    kws = {k.arg: k.value for k in fi_call[0].keywords}
+
+    def derives_from_run(expr, attr):
+        if isinstance(expr, ast.Name):
+            defs = [a.value for a in ast.walk(cf.node) if isinstance(a, ast.Assign) and len(a.targets) == 1 and isinstance(a.targets[0], ast.Name) and a.targets[0].id == expr.id]
+            return any(any(isinstance(x, ast.Attribute) and x.attr == attr and isinstance(x.value, ast.Name) and x.value.id == "run" for x in ast.walk(d)) for d in defs)
+        return any(isinstance(x, ast.Attribute) and x.attr == attr and isinstance(x.value, ast.Name) and x.value.id == "run" for x in ast.walk(expr))
+
+    ctx.check("shell" in kws and derives_from_run(kws["shell"], sa), cf.fq, "the recorded hash uses the shell flag the command was started with", f"shell comes from the database after the command: a step declared again with another flag while it ran is SUCCEEDED for the new flag with the output of the old one", f"run.{sa}", where=ctx.where_of(cf))
+    ctx.check("env_overrides" in kws and derives_from_run(kws["env_overrides"], ea), cf.fq, "the recorded hash uses the overrides the command was started with", "env_overrides come from the database after the command", f"run.{ea}", where=ctx.where_of(cf))
+    ej = ctx.prog.func("executor.Executor.execute_job")
+    hits = [n for n in ast.walk(ej.node) if isinstance(n, ast.If) and f"run.{sa}" in ast.unparse(n.test) and f"run.{ea}" in ast.unparse(n.test) and any(callee_name(c) == "mark_step_pending" for st_ in n.body for c in calls_in(st_))]
+    ctx.check(len(hits) == 1, ej.fq, "a step whose shell flag or overrides were re-declared while it ran is made pending again", "nothing compares the declaration with what was launched: the build ends with an output that does not belong to the final declaration", "compare + mark_step_pending", where=ctx.where_of(ej))
+
+
 RULES = [
+    Rule("R-C01-14", "the recorded hash describes the command that ran", rule_hash_of_what_ran, min_instances=5),
     Rule("R-C01-13", "an observed change of a file is written and its consumers are told (update_file_hashes applies its table)", C09.rule_transitions_applied, min_instances=8),
     Rule("R-C01-12", "a reused node starts from the new declaration", rule_recreated_node_starts_clean, min_instances=2),
     Rule("R-C01-11", "a reverted optional step forgets what its run amended (same end state as a build that never ran it)", C07.rule_revert_forgets_run, min_instances=5),
@@ -358,6 +400,9 @@ RULES = [
 ]
 
 MUTANTS = [
+    Mutant("hash-from-redeclared-shell", "executor.py", in_function("Executor._compute_full_step_hash", replace_once("            shell = run.step.uses_shell() if run.launched_shell is None else run.launched_shell\n", "            shell = run.step.uses_shell()\n")), ("R-C01-14",)),
+    Mutant("redeclared-running-step-not-rechecked", "executor.py", in_function("Executor.execute_job", replace_once("                self.workflow.mark_step_pending(step)\n", "                pass\n")), ("R-C01-14",)),
+    Mutant("launched-overrides-not-kept", "executor.py", in_function("Executor._run_command", replace_once("        run.launched_env_overrides = dict(env_overrides)\n", "")), ("R-C01-14",)),
     Mutant("recreated-node-keeps-inputs", "trellis.py", in_function("Trellis.create", replace_once("            node.del_all_sources()\n", "")), ("R-C01-12",)),
     Mutant("recreated-row-not-initialised", "trellis.py", in_function("Trellis.create", replace_once("        node.initialize_row(**kwargs)\n", "")), ("R-C01-12",)),
     Mutant("del-all-sources-deletes-nothing", "trellis.py", in_function("Node.del_all_sources", lambda t: t.replace('self.db.execute("DELETE FROM dependency WHERE sink = ?", (self.i,))', "pass", 1) if 'DELETE FROM dependency WHERE sink = ?' in t else None), ("R-C01-12",)),
